@@ -56,6 +56,7 @@ def run_history(case: dict, oracle: Oracle, res: core.CaseResult, *, check_from:
         oracle.start(root, case, res)
     for i, op in enumerate(hist):
         checked = i >= check_from
+        tree.pr(root)          # the document has been printed before it is edited (a print cache must not survive the edit)
         pre = oracle.pre(root, op) if checked else None
         ap = ops.apply(root, op)
         if ap.result == 'unresolved':
